@@ -1,8 +1,8 @@
-//@ assume: BlockHeader, BlockContext, Batch, DateTime, Difficulty are abstracted: the header is a record of the fields the rules read, every helper the function calls (denylist hook, previous-header lookup, version schedule, MMR leaf counts, weight, PoW verifier, achieved difficulty, difficulty iterator + retarget) is an external_body function whose result is an UNINTERPRETED spec function of its arguments -- so the contract says which checks validate_header makes and against what, not that the helpers are right (they are covered by other units where possible: header_version, next_difficulty/wtema, weight_by_iok, n_leaves)
+//@ assume: BlockHeader, BlockContext, Batch, DateTime, Difficulty are abstracted: the header is a record of the fields the rules read, every helper the function calls (denylist hook, previous-header lookup, version schedule, MMR leaf counts, weight, PoW verifier, achieved difficulty, difficulty iterator + retarget) is an external_body function whose result is an UNINTERPRETED spec function of its arguments -- so the contract says which checks validate_header makes and against what, not that the helpers are right (they are covered by other units where possible: header_version, next_difficulty/wtema, weight_by_iok, n_leaves); DifficultyIter::from_batch(start, ..) walks back from the stored header whose hash is `start` and hashes identify headers (ax_hash_identifies)
 //@ assume: T6 rewrites on the extracted text (exactly the list in the extract block): path prefixes dropped (consensus::, store::, global::, TransactionBody::), comparison operators on non-primitive types replaced by named helpers with the same meaning (DateTime <=, Difficulty <=, <, -, !=, HeaderVersion <), Options::SKIP_POW test via a helper, log macros removed (T3)
 //@ assume: a stored parent header has height < u64::MAX (`prev.height + 1`)
 //@ assume: decided here: validate_header returns Ok only if every listed rule holds (height+1, scheduled version, strictly later timestamp, MMR counts grew, weight lower bound, and unless SKIP_POW: PoW verifies, cumulative difficulty strictly above the parent's, achieved difficulty >= the increase, increase == network retarget, matching secondary scaling before version 5); the future-time limit (UntrustedBlockHeader::read) and the header-MMR root (HeaderExtension) are separate code not covered by this unit
-//@ assumed_items: 23
+//@ assumed_items: 26
 //@ fns: pipe::validate_header
 
 pub struct HeaderVersion(pub u16);
@@ -92,14 +92,21 @@ fn skip_pow(o: &Options) -> (r: bool)
 fn validate_pow_only(header: &BlockHeader, ctx: &mut BlockContext) -> (r: Result<(), Error>)
     ensures r.is_ok() ==> sp_pow_ok(*header), final(ctx).opts == old(ctx).opts
 { unimplemented!() }
+/// the hash value that identifies a stored header (hashes identify headers)
+pub uninterp spec fn sp_hash_of(h: BlockHeader) -> HashV;
+pub uninterp spec fn sp_header_at(h: HashV) -> BlockHeader;
 #[verifier::external_body]
-fn difficulty_iter_from_batch(h: HashV, b: Batch) -> (r: DifficultyIter)
+pub proof fn ax_hash_identifies(h: BlockHeader) ensures sp_header_at(sp_hash_of(h)) == h { }
+impl BlockHeader {
+    #[verifier::external_body]
+    pub fn hash(&self) -> (r: HashV) ensures r == sp_hash_of(*self) { unimplemented!() }
+}
+/// DifficultyIter::from_batch(start, batch): walks back from the header whose hash is `start`
+#[verifier::external_body]
+fn difficulty_iter_from_batch(start: HashV, b: Batch) -> (r: DifficultyIter)
+    ensures sp_iter_of(r) == sp_header_at(start)
 { unimplemented!() }
 pub uninterp spec fn sp_iter_of(i: DifficultyIter) -> BlockHeader;
-#[verifier::external_body]
-fn difficulty_iter_for(prev: &BlockHeader, b: Batch) -> (r: DifficultyIter)
-    ensures sp_iter_of(r) == *prev
-{ unimplemented!() }
 #[verifier::external_body]
 fn next_difficulty(height: u64, cursor: DifficultyIter) -> (r: HeaderDifficultyInfo)
     ensures r == sp_next(height, sp_iter_of(cursor))
@@ -112,10 +119,16 @@ fn diff_sub(a: Difficulty, b: Difficulty) -> (r: Difficulty)
     ensures r.num == a.num - b.num
 { Difficulty { num: a.num - b.num } }
 
+pub struct Tip { pub height: u64, pub last_block_h: HashV, pub prev_block_h: HashV }
 impl Batch {
     #[verifier::external_body]
     pub fn child(&mut self) -> (r: Result<Batch, Error>)
     { unimplemented!() }
+    /// offered so that a variant reading the chain heads is decided: ANY tip
+    #[verifier::external_body]
+    pub fn header_head(&self) -> (r: Result<Tip, Error>) { unimplemented!() }
+    #[verifier::external_body]
+    pub fn head(&self) -> (r: Result<Tip, Error>) { unimplemented!() }
 }
 impl BlockHeader {
     #[verifier::external_body]
@@ -159,7 +172,9 @@ pub open spec fn header_rules(h: BlockHeader, skip: bool) -> bool {
 //@   rewrite `header.total_difficulty() <= prev.total_difficulty()` => `diff_le(header.total_difficulty(), prev.total_difficulty())`
 //@   rewrite `header.total_difficulty() - prev.total_difficulty()` => `diff_sub(header.total_difficulty(), prev.total_difficulty())`
 //@   rewrite `header.pow.to_difficulty(header.height) < target_difficulty` => `diff_lt(header.achieved_difficulty(header.height), target_difficulty)`
-//@   rewrite `store::DifficultyIter::from_batch(prev.hash(), child_batch)` => `difficulty_iter_for(&prev, child_batch)`
+//@   rewrite `store::DifficultyIter::from_batch(` => `difficulty_iter_from_batch(`
+//@   after `let diff_iter = `:
+//@+    proof { ax_hash_identifies(prev); }
 //@   rewrite `consensus::next_difficulty(` => `next_difficulty(`
 //@   rewrite `target_difficulty != next_header_info.difficulty` => `diff_ne(target_difficulty, next_header_info.difficulty)`
 //@   rewrite `header.version < HeaderVersion(5)` => `header.version.0 < 5` x?
